@@ -696,8 +696,8 @@ def text_cases(rng, n, root):
             lines.append((1, "//end_vectorize"))
         if any(any(m in txt for m in MARKERS) for a, txt in lines if a == 0):
             raise C.MachineryError("generator produced a marker inside unannotated text")
-        while lines and lines[-1][1] == "" and lines[-1][0] == 0:       # a text is a sequence of newline-TERMINATED lines:
-            lines.pop()                                                 # a final empty line is only the terminator
+        lines.append((0, "/*end of text*/"))       # a text is a sequence of newline-terminated lines; the sentinel keeps a final
+                                                    # empty line and an empty output distinguishable from "no line"
         cases.append(lines)
     return cases
 
@@ -714,7 +714,7 @@ def run_text_case(lines, t, root, tok, variant=0):
     ftxt = FTXTS[variant % len(FTXTS)]
     try:
         sp = specialize_source(src, specialize_for=t, search_in_folders=[os.path.join(root, f"txt{variant % len(FTXTS)}")])
-        got = sp.split("\n") if sp != "" else []
+        got = sp.split("\n")
     except Exception as ex:      # noqa
         got = [f"<<raised {type(ex).__name__}: {ex}>>"]
     inp = []
@@ -802,6 +802,15 @@ def info_probes(run, root):
         rc, out = _cc(["gcc", "-std=c99", "-w", "-fsyntax-only", p], root)
         res[t] = "compiles" if rc == 0 else "does not compile: " + (re.search(r"error: (.*)", out) or [None, "?"])[1][:80]
     run.notes["info_reuse_loop_variable"] = res
+    # CUDA is C++ and the context wraps the source in extern "C"{}: the cuda expansion of a block + helper as C++ (information only)
+    src2 = ("/*gpufun*/ void kh(/*gpuglmem*/ int* /*restrict*/ xlog, int s, int i){ XREC(s, i); }\n"
+            "/*gpukern*/ void kc(const int n, /*gpuglmem*/ int* /*restrict*/ xlog){\n int ii=0; //vectorize_over ii n\n kh(xlog, 0, ii);\n"
+            " { /*gpuglmem*/ int* /*restrict*/ q = xlog; XRECQ(q, 1, ii); }\n //end_vectorize\n}\n")
+    p = os.path.join(root, "probe_cuda_cxx.cpp")
+    open(p, "w").write(MACROS + SIM["cuda"].replace("#define __restrict__ restrict\n", "") +
+                       specialize_source('extern "C"{\n' + src2 + "}\n", specialize_for="cuda"))
+    rc, out = _cc(["g++", "-w", "-fsyntax-only", p], root)
+    run.notes["info_cuda_expansion_as_cxx"] = "compiles" if rc == 0 else "does not compile: " + out[:200]
     sp = specialize_source("a\r\nb\x0cc\n", specialize_for="cpu_serial")
     run.notes["info_line_terminators"] = dict(input="a\\r\\nb\\x0cc\\n", output=repr(sp),
                                               note="str.splitlines: CRLF/form feed/final newline are normalised; not judged")
@@ -822,6 +831,17 @@ def classify_key(r, v):
 
 def check(pid, argv=None):
     run = C.Run(pid, argv)
+    try:
+        _check(run)
+    except SystemExit:
+        raise
+    except BaseException:
+        os.chdir(C.VERIF)
+        shutil.rmtree(run.tmp, ignore_errors=True)       # finish() was not reached
+        raise
+
+
+def _check(run):
     tier = run.tier
     xo = C.use_repo()
     run.assumptions += [
